@@ -2,6 +2,7 @@ package core
 
 import (
 	"fmt"
+	"os"
 
 	"github.com/robertkrimen/otto"
 )
@@ -14,6 +15,16 @@ var GoWitnesses = map[string]func() (string, error){}
 func RunWitnesses(c *Ctx) {
 	for _, f := range c.Findings.OpenFor(c.Property) {
 		got, err := runWitness(f)
+		if os.Getenv("VERIF_WITNESS_ONLY") != "" {
+			state := "other"
+			if err == nil && got == f.WitnessOtto {
+				state = "reproduces"
+			} else if err == nil && got == f.WitnessES5 {
+				state = "conforms"
+			}
+			fmt.Printf("WITNESS %s %s %q\n", f.ID, state, got)
+			continue
+		}
 		switch {
 		case err != nil:
 			c.Note("finding %s: witness could not run: %v", f.ID, err)
